@@ -111,3 +111,24 @@ func AtomicOp(addr interface{}, op string, f func() uint64) {
 	s.setVal(o, v+1)
 	s.note(op, v)
 }
+
+// UpdateLocal applies f to an object that only one thread has ever touched: no scheduling point,
+// no fingerprint change (thread-confined objects optimisation, see DESIGN.md §2.5). The value is
+// tracked so that Publish can bring the fingerprint up to date when a second thread arrives.
+func UpdateLocal(h *Handle, f func(v uint64) uint64) {
+	if S != nil && S.aborting {
+		panic(kill)
+	}
+	Bind(h)
+	h.v = f(h.v)
+}
+
+// Publish makes the current value of h visible in the fingerprint (the object became shared).
+func Publish(h *Handle) {
+	s := S
+	if s == nil {
+		return
+	}
+	Bind(h)
+	s.setVal(&h.o, h.v)
+}
